@@ -277,4 +277,47 @@ example : runAttempts [[⟨0, 700, [⟨512, true⟩, ⟨188, false⟩]⟩, ⟨1,
                        [⟨0, 700, [⟨512, false⟩, ⟨188, false⟩]⟩, ⟨1, 0, [⟨300, false⟩]⟩]]
     = [(0, 512), (0, 700), (1, 300), (0, 700)] := by decide
 
+/-! ### downloads through redirects, challenges, retries -/
+
+theorem runBodies_hops (hops : List (List REvent)) (rest : List BodyRun) :
+    runBodies (hops.map (fun h => ⟨h, false⟩) ++ rest) = runBodies rest := by
+  induction hops with
+  | nil => rfl
+  | cons h hs ih => simpa [runBodies] using ih
+
+/-- **download_counts_only_final_body** — whatever exchanges precede the response the caller
+gets — any number of redirect hops with bodies of any size, read in any way (larger than the file,
+read partly, closed early) — the download callback receives exactly the reports of the FINAL
+body alone: strictly increasing, each at most the final body's size, and (once closed) ending at
+it.  Nothing of a hop's body is ever counted. -/
+theorem download_counts_only_final_body (hops : List (List REvent)) (final : List REvent) :
+    runBodies (roundTrip hops final) = runRC ⟨0, 0⟩ final ∧
+    (runBodies (roundTrip hops final)).Pairwise (· < ·) ∧
+    (∀ x ∈ runBodies (roundTrip hops final), 0 < x ∧ x ≤ bytesR final) ∧
+    (0 < bytesR final → (runBodies (roundTrip hops final)).getLast? = some (bytesR final)) := by
+  have h : runBodies (roundTrip hops final) = runRC ⟨0, 0⟩ final := by
+    unfold roundTrip
+    rw [runBodies_hops]
+    simp [runBodies]
+  rw [h]
+  exact ⟨rfl, (progress_monotone_download_closed final).1, (progress_monotone_download_closed final).2,
+    progress_final_download_closed final⟩
+
+/-- retries: the reports are the concatenation of the attempts' own final bodies — every attempt
+starts from 0 again and is truthful for the response IT ended with. -/
+theorem download_attempts_restart (before after : List (List (List REvent) × List REvent))
+    (hops : List (List REvent)) (final : List REvent) :
+    runDownloadAttempts (before ++ (hops, final) :: after) =
+      runDownloadAttempts before ++ runRC ⟨0, 0⟩ final ++ runDownloadAttempts after := by
+  simp [runDownloadAttempts, (download_counts_only_final_body hops final).1]
+
+/-- the seeded behaviour (one counter for all the bodies of the round trip): a 100-byte file behind
+a redirect with a 37-byte body ends at 137 — above the file's size; the model reports 100 -/
+example : runSharedCounter [[⟨37, true, false⟩], [⟨100, true, false⟩]] = [37, 137] ∧
+    runBodies (roundTrip [[⟨37, true, false⟩]] [⟨100, true, false⟩]) = [100] := by decide
+
+/-- the behaviour before fixes/C17-11 (fresh reader per body, but every body reported): a hop body
+larger than the file is reported first — `[2048, 100]` -/
+example : runBodies [⟨[⟨2048, false, false⟩], true⟩, ⟨[⟨100, true, false⟩], true⟩] = [2048, 100] := by decide
+
 end Req.Props.C17Progress
